@@ -5,7 +5,8 @@
      merge_compare(_then)        -> merge_val (strictly greater right version replaces the left value)
      merge_versions_assignments  -> merge_vers (maximum, missing keys added)
      in_context_copy / _bump     -> with_versions / bump (deep copy, +1 per published leaf path)
-     published_leaf_test/_prefix -> leaf_paths_v / join_path
+     published_leaf_test/_prefix/_leaf_appends/_dict_appends -> pub_paths_v / join_path (dict nodes bump their own path)
+     publish_merge_assignments / _discarded_calls -> merge_part (the merged copy is assigned; None takes the other side)
      evaluate_recursively_first  -> eval is a function of an immutable clause
      upstream_pops / _merges     -> eval_upstream (last row is the base, merge in list order)
      outbound_replace_return     -> outbound (update_dict of the copied context with published) *)
@@ -31,6 +32,13 @@ Definition source_facts_statement : Prop :=
   in_context_bump = ["in_context[VERSIONS_KEY][updated] += 1"] /\
   published_leaf_test = "not isinstance(published[key], dict)" /\
   published_prefix = "new_prefix = key if not prefix else prefix + '.' + key" /\
+  published_leaf_appends = ["new_prefix"] /\
+  published_dict_appends = ["md5(new_prefix)"; "new_prefix"; "recurse(published[key], new_prefix)"] /\
+  publish_merge_assignments =
+    ["self._branch = utils.merge_dicts(copy.deepcopy(self._branch), spec_to_merge.get_branch())";
+     "self._global = utils.merge_dicts(copy.deepcopy(self._global), spec_to_merge.get_global())";
+     "self._atomic = utils.merge_dicts(copy.deepcopy(self._atomic), spec_to_merge.get_atomic())"] /\
+  publish_merge_discarded_calls = [] /\
   evaluate_recursively_first = "data = copy.deepcopy(data)" /\
   upstream_pops = ["upstream_task_execs.pop()"] /\
   upstream_merges = ["ctx_versioning.merge_context_by_version(ctx, evaluate_task_outbound_context(t_ex))"] /\
